@@ -89,10 +89,12 @@ def op_cp_reweight(state: State, a: Dict[str, Any], env: simenv.SimEnv) -> Any:
         old = cp.edges[u, v]["weight"]
         if "set" in ed:
             new = int(ed["set"])
+        elif "mul" in ed:
+            new = float(old) * float(ed["mul"])  # multipliers are exact in binary (0.5, 0.25, 1.5 ...)
         else:
             new = int(int(old) * ed["num"] // ed["den"])
         cp.edges[u, v]["weight"] = new
-        changed.append([u, v, canon_value(old), new])
+        changed.append([u, v, canon_value(old), canon_value(new)])
     return {"changed": changed}
 
 
